@@ -83,12 +83,37 @@ unsafe impl GlobalAlloc for Counting {
     }
 }
 
+/// CPU time consumed so far by the calling thread (`CLOCK_THREAD_CPUTIME_ID`): unlike the wall clock
+/// it does not advance while the thread is descheduled, so measurements stay meaningful when the
+/// machine is shared with other builds.  Falls back to zero if the clock is unavailable.
+pub fn thread_cpu() -> Duration {
+    #[repr(C)]
+    struct Timespec {
+        tv_sec: i64,
+        tv_nsec: i64,
+    }
+    extern "C" {
+        fn clock_gettime(clk: i32, ts: *mut Timespec) -> i32;
+    }
+    const CLOCK_THREAD_CPUTIME_ID: i32 = 3;
+    let mut ts = Timespec { tv_sec: 0, tv_nsec: 0 };
+    // SAFETY: plain libc call writing into a properly sized local
+    let rc = unsafe { clock_gettime(CLOCK_THREAD_CPUTIME_ID, &mut ts) };
+    if rc != 0 {
+        return Duration::ZERO;
+    }
+    Duration::new(ts.tv_sec as u64, ts.tv_nsec as u32)
+}
+
 #[derive(Debug, Clone, Default)]
 pub struct Stats {
     pub peak: usize,
     pub total: usize,
     pub count: usize,
+    /// time the measured call took: CPU time of the calling thread (user + system); the wall clock
+    /// reading is kept in `wall` (if the CPU clock is unavailable, `time` = `wall`)
     pub time: Duration,
+    pub wall: Duration,
     /// (is_realloc, size) of the first allocation calls
     pub events: Vec<(bool, usize)>,
 }
@@ -111,10 +136,13 @@ pub fn measure<T>(f: impl FnOnce() -> T) -> (T, Stats) {
     COUNT.store(0, Relaxed);
     EVN.store(0, Relaxed);
     let t0 = Instant::now();
+    let c0 = thread_cpu();
     ON.store(true, Relaxed);
     let v = f();
     ON.store(false, Relaxed);
-    let time = t0.elapsed();
+    let c1 = thread_cpu();
+    let wall = t0.elapsed();
+    let time = if c1 > c0 || (c1 == c0 && c0 != Duration::ZERO) { c1 - c0 } else { wall };
     let n = EVN.load(Relaxed).min(MAX_EVENTS);
     let events = (0..n)
         .map(|i| {
@@ -123,5 +151,5 @@ pub fn measure<T>(f: impl FnOnce() -> T) -> (T, Stats) {
         })
         .collect();
     let peak = PEAK.load(Relaxed).max(0) as usize;
-    (v, Stats { peak, total: TOTAL.load(Relaxed), count: COUNT.load(Relaxed), time, events })
+    (v, Stats { peak, total: TOTAL.load(Relaxed), count: COUNT.load(Relaxed), time, wall, events })
 }
